@@ -183,15 +183,18 @@ public:
 
         _palette.resize( entries, rgba8_pixel_t(0, 0, 0, 0));
 
+        // the colour table follows the info header, whatever its size (40, 12, or 108/124 for V4/V5)
+        _io_dev.seek( static_cast< long >( bmp_header_size::_size + _info._header_size ));
+
 		for( int i = 0; i < entries; ++i )
         {
             get_color( _palette[i], blue_t()  ) = _io_dev.read_uint8();
             get_color( _palette[i], green_t() ) = _io_dev.read_uint8();
             get_color( _palette[i], red_t()   ) = _io_dev.read_uint8();
 
-            // there are 4 entries when windows header
+            // entries have 4 bytes in every windows header (V3, V4, V5)
             // but 3 for os2 header
-            if( _info._header_size == bmp_header_size::_win32_info_size )
+            if( _info._header_size != bmp_header_size::_os2_info_size )
             {
                 _io_dev.read_uint8();
             }
